@@ -26,7 +26,7 @@ ASSUMPTIONS = [
     "only the mutators named in the property are driven (not __setitem__, __delitem__, +=, sort, reverse)",
     "a name is 'the short name made unique and identifier-safe' if it matches _?<short_name>(_?<n>)?, is an identifier, not a keyword and not an attribute of the list class",
 ]
-MUST_HIT = ["op:append", "op:insert", "op:extend", "op:remove", "op:pop", "op:clear", "op:copy",
+MUST_HIT = ["extend:gen", "extend:iter", "extend:nil", "op:append", "op:insert", "op:extend", "op:remove", "op:pop", "op:clear", "op:copy",
             "op:deepcopy", "op:pickle", "collision", "equal-distinct-removed", "same-object-twice"]
 
 NAMES = ["x", "x", "x_2", "y_", "class", "1a", "append", "keys", "items", "copy", "_x", "x2", "y_2"]
@@ -88,7 +88,13 @@ class Interp:
                 real.insert(op[1], it); model.insert(op[1], it)
             elif kind == "extend":
                 its = [self.item(r) for r in op[1]]
-                real.extend(its); model.extend(its)
+                # extend() takes any iterable (as list.extend does), also one that can be consumed only once
+                how = op[2] if len(op) > 2 else "list"
+                self.classes.add(f"extend:{how}")
+                arg = {"list": lambda: its, "tuple": lambda: tuple(its), "gen": lambda: (x for x in its),
+                       "iter": lambda: iter(its), "map": lambda: map(lambda x: x, its),
+                       "nil": lambda: type(real)(its)}[how]()
+                real.extend(arg); model.extend(its)
             elif kind == "remove":
                 it = self.item(op[1])
                 exp_exc = None
@@ -324,8 +330,8 @@ def _machine(res: core.ShardResult, kf):
         @rule(i=st.integers(-6, 6), r=ref)
         def insert(self, i, r): self.do(["insert", i, r])
 
-        @rule(rs=st.lists(ref, max_size=3))
-        def extend(self, rs): self.do(["extend", rs])
+        @rule(rs=st.lists(ref, max_size=3), how=st.sampled_from(["list", "tuple", "gen", "iter", "map", "nil"]))
+        def extend(self, rs, how): self.do(["extend", rs, how])
 
         @rule(i=st.integers(0, 30))
         def remove_present(self, i): self.do(["remove", ["old", i]])
